@@ -178,6 +178,15 @@ func c11Rules() []c11Rule {
 			Different: kvm("volumes_from", []any{"db:rw"}, "depends_on", kvm("db", dep("service_healthy", true, true))), Check: "depends-on-db-healthy-restart"},
 		{Name: "volumes-from-plain-implies-depends-on", Implicit: kvm("volumes_from", []any{"db"}), Explicit: kvm("volumes_from", []any{"db"}, "depends_on", kvm("db", dep("service_started", false, true))),
 			Different: kvm("volumes_from", []any{"db"}, "depends_on", kvm("db", dep("service_healthy", true, true))), Check: "depends-on-db-healthy-restart"},
+		// services whose names are words of the reference syntaxes
+		{Name: "volumes-from-service-named-container", TopI: kvm("services", kvm("container", kvm("image", "busybox"))), TopE: kvm("services", kvm("container", kvm("image", "busybox"))),
+			Implicit: kvm("volumes_from", []any{"container"}), Explicit: kvm("volumes_from", []any{"container"}, "depends_on", kvm("container", dep("service_started", false, true)))},
+		{Name: "volumes-from-service-named-container-ro", TopI: kvm("services", kvm("container", kvm("image", "busybox"))), TopE: kvm("services", kvm("container", kvm("image", "busybox"))),
+			Implicit: kvm("volumes_from", []any{"container:ro", "container:container"}), Explicit: kvm("volumes_from", []any{"container:ro", "container:container"}, "depends_on", kvm("container", dep("service_started", false, true)))},
+		{Name: "namespace-service-named-service", TopI: kvm("services", kvm("service", kvm("image", "busybox"))), TopE: kvm("services", kvm("service", kvm("image", "busybox"))),
+			Implicit: kvm("network_mode", "service:service", "ipc", "service:service"), Explicit: kvm("network_mode", "service:service", "ipc", "service:service", "depends_on", kvm("service", dep("service_started", true, true)))},
+		{Name: "links-service-named-container", TopI: kvm("services", kvm("container", kvm("image", "busybox"))), TopE: kvm("services", kvm("container", kvm("image", "busybox"))),
+			Implicit: kvm("links", []any{"container", "container:container"}), Explicit: kvm("links", []any{"container", "container:container"}, "depends_on", kvm("container", dep("service_started", true, true)))},
 		{Name: "links-alias-declared-depends-on", Implicit: kvm("links", []any{"db"}), Explicit: kvm("links", []any{"db"}, "depends_on", kvm("db", dep("service_started", true, true))),
 			Different: kvm("links", []any{"db:other"}, "depends_on", kvm("db", dep("service_healthy", false, true))), Check: "depends-on-db-healthy"},
 		{Name: "build-context-and-dockerfile", Implicit: kvm("build", kvm("target", "prod")), Explicit: kvm("build", kvm("target", "prod", "context", ".", "dockerfile", "Dockerfile")),
